@@ -273,6 +273,7 @@ def run_clock(chk, bindir, tier):
     chk.extra["clock_events_validated"] = rep["consumed"]
     chk.extra["clock_readings"] = rep["reads"]
     chk.extra["sleeps"] = len(sleeps)
+    chk.extra["short_sleeps_bracketed_by_raw_clock_readings"] = sum(1 for e in sleeps if e.get("raw"))
     chk.extra["sleeps_hit_by_signals"] = sum(1 for e in sleeps if e["signals"] > 0)
     chk.extra["sleeps_interrupted_with_whole_seconds_left"] = sum(1 for e in sleeps if e.get("long") and e["signals"] > 0 and e["ds"] >= 1)
     chk.sample(sleeps[-1] if sleeps else evs[-1])
